@@ -170,6 +170,23 @@ fn show(v: &[dr::Instruction]) -> String {
 fn sub_modules(input: &[u8], st: &mut Stats) -> R {
     let mut cs = Cs::new(input);
     let mut m = gen_module(&mut cs);
+    // assembling is a pure function of the value: now and then something very large is
+    // assembled on this thread first (an instruction of 20 000 operands, a module of thousands
+    // of instructions)
+    if cs.below(24) == 0 {
+        let big = dr::Instruction::new(spirv::Op::TypeStruct, None, Some(1), vec![Operand::IdRef(2); 17_000 + cs.below(9000)]);
+        let w = no_panic("Instruction::assemble (large)", || big.assemble())?;
+        if w.len() != big.operands.len() + 2 {
+            return Err(Fail::new("assemble-concatenation", "large-instruction", format!("an instruction with {} operands assembles to {} words", big.operands.len(), w.len())));
+        }
+        let mut bm = dr::Module::new();
+        bm.types_global_values = vec![dr::Instruction::new(spirv::Op::Undef, Some(1), Some(2), vec![]); 6000];
+        let w = no_panic("Module::assemble (large)", || bm.assemble())?;
+        if w.len() != 18_000 {
+            return Err(Fail::new("assemble-concatenation", "large-module", format!("6000 three-word instructions assemble to {} words", w.len())));
+        }
+        st.count("large_assembly_first");
+    }
     let dec = format!("{:?}", m);
     let f = |clause: &str, disc: &str, msg: String| Fail::new(clause, disc, msg).with_decoded(dec.clone());
     let globals = own_globals(&m);
